@@ -52,6 +52,8 @@ type c03Node struct {
 	F     int        `json:"f,omitempty"`     // failover group number
 	Hop   int        `json:"hop,omitempty"`   // network hop number
 	SComp bool       `json:"scomp,omitempty"` // http hop: the server's converters compress
+	N     int        `json:"n,omitempty"`     // connection pool size of the store (0 = 1)
+	Keep  bool       `json:"keep,omitempty"`  // proto/ssh: one session serves all requests (else a fresh one per request)
 	Kids  []*c03Node `json:"kids,omitempty"`
 }
 
@@ -80,9 +82,20 @@ type c03Case struct {
 	Slots  []c03Slot  `json:"slots"`
 	Dirs   []c03Slot  `json:"dirs,omitempty"` // directories planted in a slot (local only): K, ID
 	Faults []c03Fault `json:"faults,omitempty"`
-	Ops    []string   `json:"ops"` // g:<id>
+	Ops    []string   `json:"ops"`             // g:<id>
+	Multi  []c03Multi `json:"multi,omitempty"` // consumers over several chunks with overlapping use, run last
 	Impl   []string   `json:"impl,omitempty"`
 	Model  []string   `json:"model,omitempty"`
+}
+
+// c03Multi: AssembleFile with N workers behind a gate that holds every chunk until the next one
+// was fetched ("assemble"), or two index readers used alternately ("readers").
+type c03Multi struct {
+	Kind  string   `json:"kind"`
+	N     int      `json:"n"`
+	IDs   []string `json:"ids"`
+	Sizes []int    `json:"sizes"`
+	Blob  string   `json:"blob_hex"`
 }
 
 const c03Inf = 1 << 30
@@ -413,7 +426,11 @@ func (e *c03Env) slotPath(k int, unc bool, id string) string {
 }
 
 func c03Opts(n *c03Node) desync.StoreOptions {
-	return desync.StoreOptions{N: 1, SkipVerify: n.Skip, Uncompressed: n.Unc, ErrorRetry: n.Retry, ErrorRetryBaseInterval: 1}
+	np := n.N
+	if np < 1 {
+		np = 1
+	}
+	return desync.StoreOptions{N: np, SkipVerify: n.Skip, Uncompressed: n.Unc, ErrorRetry: n.Retry, ErrorRetryBaseInterval: 1}
 }
 
 func (e *c03Env) build(n *c03Node, cleanup *[]func()) (desync.Store, error) {
@@ -552,7 +569,7 @@ func (e *c03Env) build(n *c03Node, cleanup *[]func()) (desync.Store, error) {
 		if err != nil {
 			return nil, err
 		}
-		return &c03ProtoStore{inner: inner, hop: n.Hop, env: e}, nil
+		return &c03ProtoStore{inner: inner, hop: n.Hop, env: e, keep: n.Keep}, nil
 	case "ssh", "sshf", "foreign":
 		dir := filepath.Join(e.caseDir(), fmt.Sprintf("b%d", n.K))
 		if err := os.MkdirAll(dir, 0755); err != nil {
@@ -562,9 +579,9 @@ func (e *c03Env) build(n *c03Node, cleanup *[]func()) (desync.Store, error) {
 		case "foreign":
 			return &c03ForeignStore{dir: dir}, nil
 		case "sshf":
-			return &c03SSHStore{dir: dir, env: e, remote: e.self + " C03PULL"}, nil
+			return &c03SSHStore{dir: dir, env: e, remote: e.self + " C03PULL", keep: n.Keep, n: n.N}, nil
 		}
-		return &c03SSHStore{dir: dir, env: e, remote: os.Getenv("VH_DESYNC")}, nil
+		return &c03SSHStore{dir: dir, env: e, remote: os.Getenv("VH_DESYNC"), keep: n.Keep, n: n.N}, nil
 	}
 	return nil, fmt.Errorf("node type %q", n.T)
 }
@@ -575,6 +592,9 @@ type c03ProtoStore struct {
 	inner desync.Store
 	hop   int
 	env   *c03Env
+	keep  bool
+	mu    sync.Mutex
+	cur   *c03ProtoSession
 }
 
 type c03FaultWriter struct {
@@ -625,7 +645,13 @@ func (f *c03FaultWriter) Write(p []byte) (int, error) {
 	return f.w.Write(p)
 }
 
-func (p *c03ProtoStore) GetChunk(id desync.ChunkID) (*desync.Chunk, error) {
+type c03ProtoSession struct {
+	client *desync.Protocol
+	fw     *c03FaultWriter
+	close  func()
+}
+
+func (p *c03ProtoStore) open(id desync.ChunkID) (*c03ProtoSession, error) {
 	cr, sw := io.Pipe() // server -> client
 	sr, cw := io.Pipe() // client -> server
 	fw := &c03FaultWriter{w: sw, env: p.env, hop: p.hop, id: id}
@@ -638,7 +664,7 @@ func (p *c03ProtoStore) GetChunk(id desync.ChunkID) (*desync.Chunk, error) {
 		sr.Close()
 		close(done)
 	}()
-	defer func() {
+	closeFn := func() {
 		cancel()
 		cw.Close()
 		cr.Close()
@@ -646,23 +672,63 @@ func (p *c03ProtoStore) GetChunk(id desync.ChunkID) (*desync.Chunk, error) {
 		case <-done:
 		case <-time.After(5 * time.Second):
 		}
-	}()
+	}
 	client := desync.NewProtocol(cr, cw)
 	flags, err := client.Initialize(desync.CaProtocolPullChunks)
 	if err != nil {
+		closeFn()
 		return nil, err
 	}
 	if flags&desync.CaProtocolReadableStore == 0 {
+		closeFn()
 		return nil, errors.New("server not offering chunks")
 	}
-	fw.armed = true
-	return client.RequestChunk(id)
+	return &c03ProtoSession{client: client, fw: fw, close: closeFn}, nil
+}
+
+func (p *c03ProtoStore) GetChunk(id desync.ChunkID) (*desync.Chunk, error) {
+	p.mu.Lock()
+	defer p.mu.Unlock()
+	if !p.keep {
+		ss, err := p.open(id)
+		if err != nil {
+			return nil, err
+		}
+		defer ss.close()
+		ss.fw.armed = true
+		return ss.client.RequestChunk(id)
+	}
+	// one session for all requests; a session that failed is replaced
+	if p.cur == nil {
+		ss, err := p.open(id)
+		if err != nil {
+			return nil, err
+		}
+		p.cur = ss
+	}
+	p.cur.fw.id, p.cur.fw.first, p.cur.fw.mode, p.cur.fw.armed = id, false, "", true
+	c, err := p.cur.client.RequestChunk(id)
+	if err != nil {
+		if _, missing := err.(desync.ChunkMissing); !missing {
+			p.cur.close()
+			p.cur = nil
+		}
+	}
+	return c, err
 }
 func (p *c03ProtoStore) HasChunk(id desync.ChunkID) (bool, error) {
 	_, err := p.GetChunk(id)
 	return err == nil, err
 }
-func (p *c03ProtoStore) Close() error   { return nil }
+func (p *c03ProtoStore) Close() error {
+	p.mu.Lock()
+	defer p.mu.Unlock()
+	if p.cur != nil {
+		p.cur.close()
+		p.cur = nil
+	}
+	return nil
+}
 func (p *c03ProtoStore) String() string { return "proto" }
 
 // c03SSHStore: the real RemoteSSH store, CASYNC_SSH_PATH pointing at a script that runs the
@@ -672,21 +738,52 @@ type c03SSHStore struct {
 	dir    string
 	env    *c03Env
 	remote string // CASYNC_REMOTE_PATH: the desync binary, or this binary as a server over a foreign store
+	keep   bool   // one RemoteSSH store (n sessions) for all requests
+	n      int
+	mu     sync.Mutex
+	cur    *desync.RemoteSSH
 }
 
-func (s *c03SSHStore) GetChunk(id desync.ChunkID) (*desync.Chunk, error) {
-	os.Setenv("CASYNC_REMOTE_PATH", s.remote)
-	u, _ := url.Parse("ssh://localhost" + s.dir)
-	r, err := desync.NewRemoteSSHStore(u, desync.StoreOptions{N: 1})
-	if err != nil {
-		return nil, err
-	}
-	c, err := r.GetChunk(id)
+func c03CloseSSH(r *desync.RemoteSSH) {
 	cl := make(chan struct{})
 	go func() { r.Close(); close(cl) }()
 	select {
 	case <-cl:
 	case <-time.After(5 * time.Second):
+	}
+}
+
+func (s *c03SSHStore) GetChunk(id desync.ChunkID) (*desync.Chunk, error) {
+	s.mu.Lock()
+	defer s.mu.Unlock()
+	os.Setenv("CASYNC_REMOTE_PATH", s.remote)
+	u, _ := url.Parse("ssh://localhost" + s.dir)
+	np := s.n
+	if np < 1 {
+		np = 1
+	}
+	if !s.keep {
+		r, err := desync.NewRemoteSSHStore(u, desync.StoreOptions{N: 1})
+		if err != nil {
+			return nil, err
+		}
+		c, err := r.GetChunk(id)
+		c03CloseSSH(r)
+		return c, err
+	}
+	if s.cur == nil {
+		r, err := desync.NewRemoteSSHStore(u, desync.StoreOptions{N: np})
+		if err != nil {
+			return nil, err
+		}
+		s.cur = r
+	}
+	c, err := s.cur.GetChunk(id)
+	if err != nil {
+		if _, missing := err.(desync.ChunkMissing); !missing {
+			c03CloseSSH(s.cur)
+			s.cur = nil
+		}
 	}
 	return c, err
 }
@@ -694,7 +791,15 @@ func (s *c03SSHStore) HasChunk(id desync.ChunkID) (bool, error) {
 	_, err := s.GetChunk(id)
 	return err == nil, err
 }
-func (s *c03SSHStore) Close() error   { return nil }
+func (s *c03SSHStore) Close() error {
+	s.mu.Lock()
+	defer s.mu.Unlock()
+	if s.cur != nil {
+		c03CloseSSH(s.cur)
+		s.cur = nil
+	}
+	return nil
+}
 func (s *c03SSHStore) String() string { return "ssh" }
 
 // c03ForeignStore is a Store outside desync's own that trusts its content: GetChunk returns
@@ -865,6 +970,7 @@ func (e *c03Env) runCase(c *c03Case, corr bool) error {
 	}
 	c.Impl = nil
 	anyBadPlant := planted != "good" || len(c.Faults) > 0
+	var held []c03Held // every chunk a GetChunk returned without error is kept until the end of the case
 	for opi, op := range c.Ops {
 		f := strings.Split(op, ":")
 		idb, _ := hex.DecodeString(f[1])
@@ -889,6 +995,7 @@ func (e *c03Env) runCase(c *c03Case, corr bool) error {
 				res = "ok:!"
 			} else {
 				res = "ok:" + vh.Hex(d)
+				held = append(held, c03Held{id: id, chunk: chunk, first: append([]byte{}, d...), op: opi})
 			}
 			if verifying {
 				switch {
@@ -909,6 +1016,7 @@ func (e *c03Env) runCase(c *c03Case, corr bool) error {
 		}
 		c.Impl = append(c.Impl, res)
 	}
+	e.recheckHeld(c, held, "after all requests of the case", verifying)
 	// cache contents: whatever this code path wrote must verify against its name
 	after := map[int]map[string][]byte{}
 	for _, l := range leaves {
@@ -960,10 +1068,37 @@ func (e *c03Env) runCase(c *c03Case, corr bool) error {
 		e.r.Dist("fault:" + f.T + "/" + f.F)
 	}
 	e.r.Sample(map[string]interface{}{"stack": c.Stack.shape(), "planted": planted, "ops": len(c.Ops), "impl": c03Short(c.Impl), "verifying": verifying})
-	if !corr || e.o == nil {
-		return nil
+	if corr && e.o != nil {
+		if err := e.correspond(c, leaves, after); err != nil {
+			return err
+		}
 	}
-	return e.correspond(c, leaves, after)
+	// after the comparison with the model (what follows is judged by the predicate alone):
+	// further calls into the same store while the chunks are still held, then the consumers that
+	// use several chunks at once
+	if len(held) > 0 {
+		for _, h := range held {
+			store.HasChunk(h.id)
+		}
+		if ws, ok := store.(desync.WriteStore); ok && verifying {
+			for _, h := range held {
+				ws.StoreChunk(h.chunk) // re-stores the object that is there already
+			}
+		}
+		n := len(held)
+		for i := 0; i < n; i++ { // one more round of requests, kept as well
+			if ch, err := store.GetChunk(held[i].id); err == nil && ch != nil {
+				if d, derr := ch.Data(); derr == nil {
+					held = append(held, c03Held{id: held[i].id, chunk: ch, first: append([]byte{}, d...), op: -1})
+				}
+			}
+		}
+		e.recheckHeld(c, held, "after HasChunk / StoreChunk / another round of GetChunk", verifying)
+	}
+	for i := range c.Multi {
+		e.multi(c, store, &c.Multi[i], verifying)
+	}
+	return nil
 }
 
 func c03Short(xs []string) []string {
@@ -982,6 +1117,131 @@ func c03Top(n *c03Node) string {
 		return "leaf-" + n.Kind
 	}
 	return n.T
+}
+
+type c03Held struct {
+	id    desync.ChunkID
+	chunk *desync.Chunk
+	first []byte // copy of Data() taken when GetChunk returned
+	op    int
+}
+
+// recheckHeld: the data a returned chunk yields must stay what it was when GetChunk returned (and
+// keep hashing to the id) for as long as the caller holds the chunk, whatever the store is asked
+// to do afterwards: a returned chunk must not alias memory that a later store call writes.
+func (e *c03Env) recheckHeld(c *c03Case, held []c03Held, when string, verifying bool) {
+	for i, h := range held {
+		d, err := h.chunk.Data()
+		switch {
+		case err != nil:
+			e.r.Fail("predicate", "held-chunk/data-lost/"+c03Top(c.Stack),
+				fmt.Sprintf("chunk %s returned by request %d of %d yields no data any more %s: %v (stack %s)", c03IDStr(h.id)[:12], i, len(held), when, err, c.Stack.shape()), c)
+		case !bytes.Equal(d, h.first):
+			e.r.Fail("predicate", "held-chunk/data-changed/"+c03Top(c.Stack),
+				fmt.Sprintf("chunk %s was returned without error by request %d of %d; %s its Data() differs from what it was at return time and hashes to %s (stack %s)",
+					c03IDStr(h.id)[:12], i, len(held), when, c03IDStr(desync.Digest.Sum(d))[:12], c.Stack.shape()), c)
+		case verifying && desync.Digest.Sum(d) != h.id:
+			e.r.Fail("predicate", "held-chunk/wrong-bytes/"+c03Top(c.Stack),
+				fmt.Sprintf("held chunk %s hashes to %s %s (stack %s)", c03IDStr(h.id)[:12], c03IDStr(desync.Digest.Sum(d))[:12], when, c.Stack.shape()), c)
+		}
+	}
+	e.r.Dist(fmt.Sprintf("held-chunks:%s", bucket(len(held))))
+}
+
+// c03Gate holds every chunk it hands out until another request has been served by the store
+// behind it (or a short time has passed): consumers with several workers then really hold
+// several chunks of the same store at once.
+type c03Gate struct {
+	desync.Store
+	mu     sync.Mutex
+	served int
+}
+
+func (g *c03Gate) GetChunk(id desync.ChunkID) (*desync.Chunk, error) {
+	g.mu.Lock()
+	ch, err := g.Store.GetChunk(id) // the store itself sees one request at a time
+	g.served++
+	mine := g.served
+	g.mu.Unlock()
+	deadline := time.Now().Add(40 * time.Millisecond)
+	for time.Now().Before(deadline) {
+		g.mu.Lock()
+		later := g.served > mine
+		g.mu.Unlock()
+		if later {
+			break
+		}
+		time.Sleep(200 * time.Microsecond)
+	}
+	return ch, err
+}
+
+// multi runs a consumer that uses several chunks of the stack at once.  Predicate: success =>
+// the output is the blob the index rows describe.
+func (e *c03Env) multi(c *c03Case, store desync.Store, m *c03Multi, verifying bool) {
+	flags := uint64(desync.CaFormatExcludeNoDump)
+	if c.Digest != "sha256" {
+		flags |= desync.CaFormatSHA512256
+	}
+	blob := vh.UnHex(m.Blob)
+	idx := desync.Index{Index: desync.FormatIndex{FeatureFlags: flags, ChunkSizeMin: 1, ChunkSizeAvg: 64, ChunkSizeMax: 1 << 20}}
+	off := uint64(0)
+	for i, sid := range m.IDs {
+		var id desync.ChunkID
+		copy(id[:], vh.UnHex(sid))
+		idx.Chunks = append(idx.Chunks, desync.IndexChunk{ID: id, Start: off, Size: uint64(m.Sizes[i])})
+		off += uint64(m.Sizes[i])
+	}
+	res := "fail"
+	switch m.Kind {
+	case "assemble":
+		name := filepath.Join(e.caseDir(), "multi-out")
+		os.Remove(name)
+		if _, err := desync.AssembleFile(context.Background(), name, idx, &c03Gate{Store: store}, nil, desync.AssembleOptions{N: m.N}); err == nil {
+			got, _ := os.ReadFile(name)
+			res = "ok"
+			if !bytes.Equal(got, blob) && verifying {
+				res = "wrong"
+				e.r.Fail("predicate", "consumer/assemble-n-emits-wrong-bytes/"+c03Top(c.Stack),
+					fmt.Sprintf("AssembleFile with %d workers (each chunk held until the next one was fetched) succeeded through %s but the file differs from the %d-chunk blob", m.N, c.Stack.shape(), len(m.IDs)), c)
+			}
+		}
+		os.Remove(name)
+	case "readers":
+		// two readers over the same store, used alternately: each holds its current chunk while
+		// the other one loads
+		r1, r2 := desync.NewIndexReadSeeker(idx, store), desync.NewIndexReadSeeker(idx, store)
+		var o1, o2 []byte
+		one := make([]byte, 1)
+		var err1, err2 error
+		pos2 := int64(0)
+		if len(m.Sizes) > 1 {
+			pos2 = int64(m.Sizes[0])
+		}
+		if _, err2 = r2.Seek(pos2, io.SeekStart); err2 == nil {
+			for (err1 == nil || err2 == nil) && len(o1)+len(o2) < 2*len(blob)+4 {
+				if err1 == nil {
+					var n int
+					n, err1 = r1.Read(one)
+					o1 = append(o1, one[:n]...)
+				}
+				if err2 == nil {
+					var n int
+					n, err2 = r2.Read(one)
+					o2 = append(o2, one[:n]...)
+				}
+			}
+		}
+		if err1 == io.EOF && err2 == io.EOF {
+			res = "ok"
+			if verifying && (!bytes.Equal(o1, blob) || !bytes.Equal(o2, blob[pos2:])) {
+				res = "wrong"
+				e.r.Fail("predicate", "consumer/two-readers-emit-wrong-bytes/"+c03Top(c.Stack),
+					fmt.Sprintf("two index readers used alternately over %s both ended with io.EOF but their output differs from the %d-chunk blob", c.Stack.shape(), len(m.IDs)), c)
+			}
+		}
+	}
+	e.r.Dist("multi:" + m.Kind + "/" + res)
 }
 
 // ops as the oracle takes them: the read-seeker op carries the index size for the implementation only
